@@ -31,3 +31,75 @@ Definition run (cases : list case) : string := summary judge cases.
 
 (* debugging aid used when a case fails: what the model and the spec say *)
 Definition explain (c : case) := (model_obs c, spec_obs c, tokenize (mode_of c) (unesc (c_text c))).
+
+(* ------------------------------------------------------------------------------------------------
+   LARGE inputs (>= 64 KiB, >= 128 KiB; round 3, seeded change C11_C).  A big string literal is expensive to
+   read for coqc, so the text crosses as SEGMENTS: (escaped block, repetitions); both sides expand it
+   (Python: "".join(block * reps)); the observable crosses as a DIGEST of the returned tree's token
+   stream: (number of tokens, two 63-bit polynomial checksums of the tokens joined by blanks).  The same
+   digest is computed here on the model's and on the strict reader's result, and by the generator on the
+   tree it rendered. *)
+From Coq Require Import ZArith NArith Uint63.
+Open Scope list_scope.
+
+Record seg := { s_block : string; s_reps : nat }.
+
+Fixpoint rep_app (b : text) (n : nat) (k : text) : text :=
+  match n with 0 => k | S n' => b ++ rep_app b n' k end.
+Definition expand (segs : list seg) : text :=
+  fold_right (fun s k => rep_app (unesc (s_block s)) (s_reps s) k) [] segs.
+
+Definition digest_t := (int * int * int)%type.
+Definition code (c : ascii) : int := of_Z (Z.of_N (N_of_ascii c)).
+Definition M1 : int := 1000003%uint63.
+Definition M2 : int := 6364136223846793005%uint63.
+Definition hstep (st : int * int) (c : ascii) : int * int :=
+  let '(h1, h2) := st in ((h1 * M1 + code c + 1)%uint63, (h2 * M2 + code c + 1)%uint63).
+Fixpoint hstr (st : int * int) (s : string) : int * int :=
+  match s with EmptyString => st | String c r => hstr (hstep st c) r end.
+Definition digest (ts : list string) : digest_t :=
+  let '(n, st) := fold_left (fun acc t => let '(n, st) := acc in ((n + 1)%uint63, hstep (hstr st t) " "%char))
+                            ts (0%uint63, (0%uint63, 0%uint63)) in
+  (n, fst st, snd st).
+Definition digest_eqb (a b : digest_t) : bool :=
+  let '(n, x, y) := a in let '(n', x', y') := b in ((n =? n') && (x =? x') && (y =? y'))%uint63.
+
+Record bigcase := { b_file : bool; b_segs : list seg; b_obs : obs digest_t; b_expect : option (obs digest_t) }.
+
+Definition bmode (c : bigcase) : mode := if b_file c then MFile else MStr.
+
+Definition digest_obs (r : result sexp) : obs digest_t :=
+  match r with Ok e => Returned (digest (flatten e)) | Err _ => Raised end.
+
+Definition big_model_obs (c : bigcase) : obs digest_t := digest_obs (parse (bmode c) (expand (b_segs c))).
+Definition big_spec_obs (c : bigcase) : obs digest_t := digest_obs (parse_strict (bmode c) (expand (b_segs c))).
+
+(* one tokenization and one descent serve the model, the strict reader and the classifier
+   (judge_big_eq below: this is exactly what the three separate definitions give) *)
+Definition judge_big (c : bigcase) : verdict :=
+  let ts := tokenize (bmode c) (expand (b_segs c)) in
+  let r := rd (2 * List.length ts + 2) ts in
+  let m := match r with Ok (e, _) => Returned (digest (flatten e)) | Err _ => Raised end in
+  let s := match r with Ok (e, []) => Returned (digest (flatten e)) | _ => Raised end in
+  {| v_agree := obs_eqb digest_eqb m (b_obs c);
+     v_ok := obs_eqb digest_eqb s (b_obs c) &&
+             match b_expect c with Some e => obs_eqb digest_eqb e (b_obs c) | None => true end;
+     v_known := match r with Ok (_, _ :: _) => true | _ => false end |}.
+
+Lemma judge_big_eq c :
+  judge_big c =
+  {| v_agree := obs_eqb digest_eqb (big_model_obs c) (b_obs c);
+     v_ok := obs_eqb digest_eqb (big_spec_obs c) (b_obs c) &&
+             match b_expect c with Some e => obs_eqb digest_eqb e (b_obs c) | None => true end;
+     v_known := match unread_tokens (tokenize (bmode c) (expand (b_segs c))) with [] => false | _ => true end |}.
+Proof.
+  unfold judge_big, big_model_obs, big_spec_obs, digest_obs, parse, parse_strict, parse_tokens,
+    parse_tokens_strict, unread_tokens.
+  destruct (rd _ _) as [[e [|x rest]]|k]; reflexivity.
+Qed.
+
+Definition run_big (cases : list bigcase) : string := summary judge_big cases.
+
+Definition explain_big (c : bigcase) :=
+  let ts := tokenize (bmode c) (expand (b_segs c)) in
+  (big_model_obs c, big_spec_obs c, digest ts, firstn 12 ts).
